@@ -281,15 +281,15 @@ def hostile_root_scenarios():
              "a/v1", "extensions/e", "q/..", "fine/o2"]
     for fresh in (False, True):
         cfg = dict(base, layout="none", fresh_handle=fresh)
-        ops = [{"op": "new", "id": "o1"}, {"op": "cp_ext", "id": "o1", "files": [["a.txt", 1]], "dst": "a.txt", "recursive": False},
-               {"op": "commit", "id": "o1", "object_root": "a"},
-               {"op": "new", "id": "o2"}, {"op": "cp_ext", "id": "o2", "files": [["b.txt", 2]], "dst": "b.txt", "recursive": False},
+        ops = [{"op": "new", "id": "obj-0"}, {"op": "cp_ext", "id": "obj-0", "files": [["a.txt", 1]], "dst": "a.txt", "recursive": False},
+               {"op": "commit", "id": "obj-0", "object_root": "a"},
+               {"op": "new", "id": "obj-1"}, {"op": "cp_ext", "id": "obj-1", "files": [["b.txt", 2]], "dst": "b.txt", "recursive": False},
                # the same new content under two names (de-duplicated by every commit attempt, put back after each refusal),
                # one of them a name the occupant of root `a` has too
-               {"op": "cp_ext", "id": "o2", "files": [["a.txt", N_COMMON + 2]], "dst": "a.txt", "recursive": False},
-               {"op": "cp_ext", "id": "o2", "files": [["c.txt", N_COMMON + 2]], "dst": "c.txt", "recursive": False}]
+               {"op": "cp_ext", "id": "obj-1", "files": [["a.txt", N_COMMON + 2]], "dst": "a.txt", "recursive": False},
+               {"op": "cp_ext", "id": "obj-1", "files": [["c.txt", N_COMMON + 2]], "dst": "c.txt", "recursive": False}]
         for r in roots:
-            ops.append({"op": "commit", "id": "o2", "object_root": r})
+            ops.append({"op": "commit", "id": "obj-1", "object_root": r})
         out.append((cfg, ops))
     cfg = dict(base, layout="0002", fresh_handle=False)
     ops = [{"op": "new", "id": "a"}, {"op": "cp_ext", "id": "a", "files": [["a.txt", 1]], "dst": "a.txt", "recursive": False},
